@@ -338,6 +338,13 @@ class MultitaskMultivariateNormal(MultivariateNormal):
                 num_rows = self._output_shape[-1]
                 num_cols = self._output_shape[-2]
 
+            # Negative integers and negative entries of index tensors are valid indices for the mean:
+            # wrap them before doing arithmetic on flattened (row * num_cols + col) indices
+            if isinstance(row_idx, int) or torch.is_tensor(row_idx):
+                row_idx = _normalize_index(row_idx, num_rows)
+            if isinstance(col_idx, int) or torch.is_tensor(col_idx):
+                col_idx = _normalize_index(col_idx, num_cols)
+
             if isinstance(row_idx, int) and isinstance(col_idx, int):
                 # Single sample with single task
                 row_idx = _normalize_index(row_idx, num_rows)
@@ -361,7 +368,9 @@ class MultitaskMultivariateNormal(MultivariateNormal):
                 # A block of the reversely interleaved covariance matrix
                 row_idx = _normalize_slice(row_idx, num_rows)
                 col_idx = _normalize_index(col_idx, num_cols)
-                new_slice = slice(row_idx.start + col_idx, row_idx.stop * num_cols + col_idx, row_idx.step * num_cols)
+                new_slice = slice(
+                    row_idx.start * num_cols + col_idx, row_idx.stop * num_cols + col_idx, row_idx.step * num_cols
+                )
                 new_cov = self.lazy_covariance_matrix[batch_idx + (new_slice, new_slice)]
                 return MultivariateNormal(mean=new_mean, covariance_matrix=new_cov)
             elif (
@@ -384,7 +393,7 @@ class MultitaskMultivariateNormal(MultivariateNormal):
                     col_idx = torch.arange(num_cols)[col_idx]
                 row_grid, col_grid = torch.meshgrid(row_idx, col_idx, indexing="ij")
                 indices = (row_grid * num_cols + col_grid).reshape(-1)
-                new_cov = self.lazy_covariance_matrix[batch_idx + (indices,)][..., indices]
+                new_cov = self.lazy_covariance_matrix[batch_idx][..., indices, :][..., indices]
                 return MultitaskMultivariateNormal(
                     mean=new_mean, covariance_matrix=new_cov, interleaved=self._interleaved, validate_args=False
                 )
@@ -401,7 +410,9 @@ class MultitaskMultivariateNormal(MultivariateNormal):
         return f"MultitaskMultivariateNormal(mean shape: {self._output_shape})"
 
 
-def _normalize_index(i: int, dim_size: int) -> int:
+def _normalize_index(i, dim_size: int):
+    if torch.is_tensor(i):
+        return torch.where(i < 0, i + dim_size, i)
     if i < 0:
         return dim_size + i
     else:
@@ -409,17 +420,5 @@ def _normalize_index(i: int, dim_size: int) -> int:
 
 
 def _normalize_slice(s: slice, dim_size: int) -> slice:
-    start = s.start
-    if start is None:
-        start = 0
-    elif start < 0:
-        start = dim_size + start
-    stop = s.stop
-    if stop is None:
-        stop = dim_size
-    elif stop < 0:
-        stop = dim_size + stop
-    step = s.step
-    if step is None:
-        step = 1
-    return slice(start, stop, step)
+    # resolve None / negative / out-of-range bounds exactly as Python does for a sequence of length dim_size
+    return slice(*s.indices(dim_size))
